@@ -610,6 +610,8 @@ class Interp:
     def const(self, c, frame):
         m = _RE_INTLIT.fullmatch(c)
         if m: return int(m.group(1))
+        m = _RE_INTLIM.fullmatch(c)
+        if m: return INT_RANGE[m.group(1)][0 if m.group(2) == 'MIN' else 1]
         if c == 'true': return True
         if c == 'false': return False
         if c == '()': return []
@@ -743,7 +745,8 @@ class Interp:
         if op in CMP:
             if isinstance(a, bool) and is_sym(b): a = z3.BoolVal(a)
             if isinstance(b, bool) and is_sym(a): b = z3.BoolVal(b)
-            return CMP[op](a, b)
+            try: return CMP[op](a, b)
+            except z3.Z3Exception as e: raise Unsupported('comparison %s of %r and %r: %s' % (op, a, b, e))
         if op in ('Add', 'AddUnchecked'): return a + b
         if op in ('Sub', 'SubUnchecked'): return a - b
         if op in ('Mul', 'MulUnchecked'): return a * b
@@ -944,6 +947,7 @@ class Interp:
         return self.statics[name]
 
 _RE_INTLIT = re.compile(r'(-?\d+)_(?:u8|u16|u32|u64|u128|usize|i8|i16|i32|i64|i128|isize)')
+_RE_INTLIM = re.compile(r'(?:core::num::<impl )?(u8|u16|u32|u64|usize|i8|i16|i32|i64|isize)>?::(MIN|MAX)')
 _RE_FLOATLIT = re.compile(r'(-?(?:[0-9.]+(?:[eE][-+]?\d+)?|inf|NaN))f(?:64|32)')
 CMP = {'Ge': lambda a, b: a >= b, 'Gt': lambda a, b: a > b, 'Le': lambda a, b: a <= b, 'Lt': lambda a, b: a < b,
        'Eq': lambda a, b: a == b, 'Ne': lambda a, b: a != b}
